@@ -70,6 +70,9 @@ def eat_data_roles(P):
                     and st.value.slice.upper is None and isinstance(st.value.slice.lower, ast.Name) and isinstance(st.value.value, ast.Name) and st.value.value.id == f.params[1]:
                 roles['part'] = st.targets[0].id
                 roles['start'] = st.value.slice.lower.id
+    # the recorded length of the remainder is optional (a representation may use len(remainder) instead): the role maps to None then
+    if 'trest_len' not in roles and not any(isinstance(n, ast.Attribute) and n.attr == 'trest_len' for n in ast.walk(f.owner_cls.node if f.owner_cls is not None else f.node)):
+        roles['trest_len'] = None
     for need in ('trest', 'trest_len', 'tlen', 'start', 'part'):
         if need not in roles:
             raise AnalysisError(f'_eat_data: cannot identify `{need}` by role')
@@ -84,12 +87,15 @@ def check_eat_data_resets(P, R, rid):
             and not is_const(n.ast.value, None)]
     R.require(len(rets) >= 3, f'_eat_data: {len(rets)} position returns found (3 on the pinned tree)')
 
+    has_len = any(isinstance(n, ast.Attribute) and n.attr == 'trest_len' for n in ast.walk(f.owner_cls.node if f.owner_cls is not None else f.node))
+    state_fields = {'self.trest', 'self.trest_len'} if has_len else {'self.trest'}
+
     def is_reset(n):
         a = n.ast
         if n.kind != 'stmt' or not isinstance(a, ast.Assign) or not is_const(a.value, None):
             return False
         names = {dotted(t) for t in a.targets}
-        return {'self.trest', 'self.trest_len'} <= names
+        return state_fields <= names
 
     resets = [n for n in g.nodes if is_reset(n)]
     for i, r in enumerate(rets):
@@ -110,12 +116,15 @@ def check_eat_data_resets(P, R, rid):
              why='the markup must not depend on leftovers of an earlier chunk', key_extra=f'ret{i}')
     # normal end: write-back of the locals
     wb = [n for n in g.nodes if n.kind == 'stmt' and isinstance(n.ast, ast.Assign) and isinstance(n.ast.targets[0], ast.Tuple)
-          and {dotted(e) for e in n.ast.targets[0].elts} == {'self.trest_len', 'self.trest'}]
+          and {dotted(e) for e in n.ast.targets[0].elts} == state_fields]
+    if not has_len:
+        wb = [n for n in g.nodes if n.kind == 'stmt' and isinstance(n.ast, ast.Assign) and len(n.ast.targets) == 1 and dotted(n.ast.targets[0]) == 'self.trest'
+              and isinstance(n.ast.value, ast.Name)]
     ok = False
     if wb:
         v = wb[0].ast.value
-        order = [dotted(e) for e in wb[0].ast.targets[0].elts]
-        vals = [src(e) for e in v.elts] if isinstance(v, ast.Tuple) else []
+        order = [dotted(e) for e in wb[0].ast.targets[0].elts] if isinstance(wb[0].ast.targets[0], ast.Tuple) else [dotted(wb[0].ast.targets[0])]
+        vals = [src(e) for e in v.elts] if isinstance(v, ast.Tuple) else [src(v)]
         er_ = eat_data_roles(P)
         ok = vals == [er_[o.split('.')[1]] for o in order]
         fall = [p for (p, lab) in g.exit.pred if not (p.kind == 'stmt' and isinstance(p.ast, ast.Return))]
@@ -537,7 +546,7 @@ def check(P, R):
     tail = [n for n in mts if n not in in_loop]
     # refutation sites: local `trest_len = trest = None`
     refs = [n for n in g.nodes if n.kind == 'stmt' and isinstance(n.ast, ast.Assign) and is_const(n.ast.value, None)
-            and {dotted(t) for t in n.ast.targets} == {er['trest_len'], er['trest']}]
+            and {dotted(t) for t in n.ast.targets} == ({er['trest_len'], er['trest']} - {None})]
     R.require(len(refs) >= 2, f'_eat_data: {len(refs)} refutation sites (3 on the pinned tree; at least one in the window loop and one in the tail block)')
     adv = [g.node_of_stmt(x)[0] for x in walk_shallow(lp) if isinstance(x, ast.AugAssign) and dotted(x.target) == er['start']]
     if isinstance(lp, ast.For):
@@ -567,8 +576,8 @@ def check(P, R):
         res = [d.name for d in rd.gen.get(n, [])]
         if res:
             nm = res[0]
-            ok = any(isinstance(m.ast, ast.Assign) and isinstance(m.ast.value, ast.Tuple) and nm in names_loaded(m.ast.value)
-                     and {dotted(e) for t in m.ast.targets for e in (t.elts if isinstance(t, ast.Tuple) else [t])} == {er['trest_len'], er['trest']}
+            ok = any(isinstance(m.ast, ast.Assign) and (isinstance(m.ast.value, ast.Tuple) or er['trest_len'] is None) and nm in names_loaded(m.ast.value)
+                     and {dotted(e) for t in m.ast.targets for e in (t.elts if isinstance(t, ast.Tuple) else [t])} == ({er['trest_len'], er['trest']} - {None})
                      for m in g.nodes if m.kind == 'stmt' and m.ast is not None)
     R.ob('C06.e', ed, tail[0].ast if tail else ed.node, ok, text='a matching tail becomes the remainder expected in the next chunk', detail='' if ok else
          'the part of the delimiter seen at the end of the chunk is not remembered')
